@@ -312,6 +312,29 @@ impl Holder {
 }
 
 /// Replays a move/drop history; values must equal the unmoved reference sequence.
+/// Values for `Difficulty::clock_rate`, whose storage relies on "the clamped value's bits are never zero".
+const RATE_NICHE: [f64; 14] = [0.0, -0.0, 5e-324, f64::MIN_POSITIVE, 0.005, 0.01, 1.0, 100.0, 1e308, f64::INFINITY, f64::NEG_INFINITY, -1.0, f64::NAN, 1.234];
+
+/// The setter must store exactly the clamped value (or NaN), without tripping over its unsafe niche encoding.
+fn rate_niche_case(v: f64) -> Result<u64, String> {
+    let d = Difficulty::new().clock_rate(v);
+    let got = d.clone().inspect().clock_rate;
+    let ok = match got {
+        Some(g) if v.is_nan() => g.is_nan(),
+        Some(g) => g.to_bits() == v.clamp(0.01, 100.0).to_bits(),
+        None => false,
+    };
+    if !ok {
+        return Err(format!("Difficulty::clock_rate({v:?}) stores {got:?}, expected {:?}", v.clamp(0.01, 100.0)));
+    }
+    // the stored value is read back on every calculation
+    let dbg = format!("{d:?}");
+    if !dbg.contains("clock_rate") {
+        return Err("Debug output lost the clock rate".into());
+    }
+    Ok(2)
+}
+
 fn limited(limit: Option<u32>) -> Difficulty {
     match limit {
         Some(k) => Difficulty::new().passed_objects(k),
@@ -600,6 +623,23 @@ fn miri_body(thorough: bool, part: &str) {
             }
         }
     }
+    // (m3b) the niche encoding of Difficulty's clock rate
+    if part == "decode" {
+        for v in RATE_NICHE {
+            println!("MIRI-STEP Difficulty::clock_rate({v:?})");
+            match rate_niche_case(v) {
+                Ok(c) => {
+                    states += 1;
+                    transitions += 1;
+                    checked += c;
+                }
+                Err(m) => {
+                    println!("MIRI-FAIL {m}");
+                    std::process::exit(1);
+                }
+            }
+        }
+    }
     // (m4) sorts
     for k in if part == "decode" { key_arrays(if thorough { 5 } else { 3 }) } else { Vec::new() } {
         if let Err(m) = sorts_case(&k).and_then(|_| legacy_sort_case(&k)) {
@@ -724,6 +764,14 @@ fn main() {
             });
         }
     }
+    ctx.universe_isolated("difficulty-clock-rate-niche/vdebug", RATE_NICHE.len() as u64, 20.0, 2048, |idx, l| {
+        l.states(1);
+        l.nontrivial();
+        match rate_niche_case(RATE_NICHE[idx as usize]) {
+            Ok(c) => l.checked(c),
+            Err(m) => l.violation("clock_rate_niche", || m),
+        }
+    });
     ctx.set_worker_exe(None);
     let texts = path_texts();
     ctx.universe("decoder-paths/native", texts.len() as u64, |idx, l| {
